@@ -43,6 +43,12 @@ func (bufs Buffers) ReadFrom(r io.Reader) (int64, error) {
 			n, err := r.Read(buf[filled:])
 			total += int64(n)
 			filled += n
+			if err == io.EOF && n > 0 {
+				// A Read may return data together with io.EOF.
+				// That data counts; if more is needed, the next
+				// Read reports the end of the stream again.
+				err = nil
+			}
 			if (n == 0 && err == nil) || err == io.EOF {
 				return total, io.EOF
 			} else if err != nil {
